@@ -166,6 +166,22 @@ def assemble(repo=REPO, mutate_hook=None, only_units=None, canary=False):
     def emit_items(sel):
         for itm in sel:
             txt = extract.find_item_text(read(os.path.join(repo, itm.src)), itm.what)
+            if itm.strip_attrs:
+                # D1 inside an item: field attributes (`#[arg(..)]`) and doc comments are dropped, the field list itself is verbatim
+                toks = rtok.lex(txt)
+                st = rtok.sig(toks)
+                spans = []
+                i = 0
+                while i < len(st) - 1:
+                    if st[i][1] == '#' and st[i + 1][1] == '[':
+                        c = rtok.match_close(st, i + 1)
+                        spans.append((st[i][2], st[c][3]))
+                        i = c + 1
+                        continue
+                    i += 1
+                for a, b in reversed(spans):
+                    txt = txt[:a] + txt[b:]
+                txt = '\n'.join(l for l in txt.split('\n') if l.strip() and not l.strip().startswith('///'))
             for a in itm.attrs:
                 out.append((a, None, ('glue', None)))
             for l in txt.split('\n'):
